@@ -171,6 +171,12 @@ BOUNDED = [
      "bound": "%d listed request sequences mixing failing evaluations with :skip / :replace / :resume / :abort / :forget_local: the process must not panic, every request must be answered, and the last request (40 + 2) must be answered with 42" % len(COMMAND_CORPUS),
      "expect": {}},
 ]
+BOUNDED.append({"name": "moderately_nested_requests", "kind": "session-alive", "props": ["C09"], "n_inputs": 3,
+                "input": [["(" * 20 + "1" + ")" * 20, "40 + 2"], ["[" * 20 + "]" * 20, "40 + 2"], [" + ".join("1" for _ in range(40)), "40 + 2"]],
+                "bound": "3 request sequences whose first request nests 20 brackets or chains 40 operands: answered, and the session answers 40 + 2 afterwards", "expect": {}})
+BOUNDED.append({"name": "deep_request:nested_parentheses_150", "kind": "session-alive", "props": ["C09"], "n_inputs": 1,
+                "input": [["(" * 150 + "1" + ")" * 150, "40 + 2"]],
+                "bound": "one request sequence: an expression inside 150 nested parentheses, then 40 + 2", "expect": {}})
 WITNESSES = [
     {"match": r"session\.", "kind": "session-alive", "props": ["C09"], "input": COMMAND_CORPUS, "expect": {}, "note": "command sequences in any state"},
     {"match": r"session\.handle_run_request\.", "kind": "json-session", "props": ["C09"],
